@@ -27,6 +27,22 @@ from .errors import BoundBranchOutOfDate
 remove_tags = _uncommit_rs.remove_tags
 
 
+def _remove_local_tags(branch, graph, old_tip, parents):
+    """Remove tags on revisions between old_tip and parents, in branch only.
+
+    Used for a local uncommit in a bound branch: the master keeps the
+    revisions, so it has to keep its tags too (Tags.delete_tag would remove
+    them from the master as well).
+    """
+    ancestors = graph.find_unique_ancestors(old_tip, parents)
+    tag_dict = branch.tags.get_tag_dict()
+    kept = {
+        name: revid for name, revid in tag_dict.items() if revid not in ancestors
+    }
+    if kept != tag_dict:
+        branch.tags._set_tag_dict(kept)
+
+
 def uncommit(
     branch,
     dry_run=False,
@@ -122,9 +138,12 @@ def uncommit(
                 parents = []
             if tree is not None:
                 parents.extend(reversed(pending_merges))
-                tree.set_parent_ids(parents)
+                tree.set_parent_ids(parents, allow_leftmost_as_ghost=True)
             if branch.supports_tags() and not keep_tags:
-                remove_tags(branch, graph, old_tip, parents)
+                if local:
+                    _remove_local_tags(branch, graph, old_tip, parents)
+                else:
+                    remove_tags(branch, graph, old_tip, parents)
     finally:
         for item in reversed(unlockable):
             item.unlock()
